@@ -229,4 +229,3 @@ func c17Extras(cc *CheckCtx) {
 		"C17: host packages (repl, main, wasm) are outside the property: the host's own auto-save/history/script-file accesses are not actions of a grol program",
 		"C17: symlinks and other OS-level indirections for an accepted name are not modelled")
 }
-
